@@ -16,6 +16,7 @@ EXPLANATION = ("Decided clauses: has_line_info iterates self.iter() un-adapted, 
                "corresponding Ok(Header), nothing otherwise, and the result struct is wired field-to-field from these accumulators; is_valid "
                "iterates self.iter().take(50) (one adaptor, literal 50), sets a flag on Ok(Class) and returns true on Ok(Field|Method) "
                "after the flag, false after the loop. That the record stream itself is total and line-local is C06.")
+EXPLANATION = EXPLANATION + ' Accepted spellings of the same folds (each with its own reference): quantifier / find_map / try_fold / fold forms, a counted window, `take(50).flatten().skip_while(..).any(..)`, and the summary as five independent stream queries (count of a filter, last of a filter_map). The mapping is its bytes and nothing else (no memo that a section could inherit).'
 RULE_TEXT = R1.RULE_TEXT
 TRUSTED = R1.TRUSTED + ["std::iter::Take yields the first n items"]
 
